@@ -52,9 +52,45 @@ type traceLayout struct {
 	Mn   int  `json:"mn"`
 	Mx   int  `json:"mx"`
 	Coll bool `json:"coll"`
+	// paginated store
+	BLen    int  `json:"blen"`
+	BCap    int  `json:"bcap"`
+	Trig    int  `json:"trig"`
+	PLen    int  `json:"plen"`
+	PAlloc  int  `json:"palloc"`
+	PMin    int  `json:"pmin"`
+	PUnused bool `json:"punused"`
 }
 
-const traceQ = 64 // quanta per unit in recorded traces
+const traceQ = 64
+
+const traceDenseCfg = `INIT TraceInit
+NEXT TraceNext
+CONSTANTS
+  Overhead = 64
+  FixF3 = TRUE
+  Slots <- TSlots
+  Keys = {0}
+  Weights = {0}
+  InitKinds = 0
+  MaxTotal = 0
+INVARIANTS LayoutMatches
+CHECK_DEADLOCK FALSE
+`
+
+const tracePagedCfg = `INIT TraceInit
+NEXT TraceNext
+CONSTANTS
+  PageLen = 32
+  PageGrow = 8
+  Unit = 64
+  Slots <- TSlots
+  Keys = {0}
+  WeightsW = {0}
+  MaxTotal = 0
+INVARIANTS LayoutMatches
+CHECK_DEADLOCK FALSE
+` // quanta per unit in recorded traces
 
 // observeForTrace projects a real store; non-dyadic weights are reported as a problem.
 func observeForTrace(s store.Store, rng *rand.Rand, forceFull bool) (*traceObs, string) {
@@ -339,7 +375,11 @@ func recordStoreTrace(w *bufio.Writer, rng *rand.Rand, o traceGenOpts, counters 
 		}
 		lay := store.VerifLayout(objs[recv-1])
 		ev.Alloc = lay.ArrayLen
-		ev.Lay = &traceLayout{Len: lay.ArrayLen, Off: lay.Offset, Mn: lay.MinIndex, Mx: lay.MaxIndex, Coll: lay.Collapsed}
+		ev.Lay = &traceLayout{Len: lay.ArrayLen, Off: lay.Offset, Mn: lay.MinIndex, Mx: lay.MaxIndex, Coll: lay.Collapsed,
+			BLen: lay.BufferLen, BCap: lay.BufferCap, Trig: lay.CompactionTrigger, PLen: lay.PagesLen, PAlloc: lay.AllocatedPages, PUnused: lay.PagesUnused}
+		if !lay.PagesUnused {
+			ev.Lay.PMin = lay.MinPageIndex
+		}
 		if lay.Collapsed {
 			counters["layout:collapsed"]++
 		}
@@ -409,19 +449,7 @@ func (c *Ctx) runStoreTraces(nTraces int, o traceGenOpts, purpose string) {
 		infraFail("trace validation consumed %d of %d lines without reporting a violation:\n%s", res.Distinct-1, lines, res.Output)
 	}
 	if res.Violated == "" && o.Layout {
-		cfgD := `INIT TraceInit
-NEXT TraceNext
-CONSTANTS
-  Overhead = 64
-  FixF3 = TRUE
-  Slots <- TSlots
-  Keys = {0}
-  Weights = {0}
-  InitKinds = 0
-  MaxTotal = 0
-INVARIANTS LayoutMatches
-CHECK_DEADLOCK FALSE
-`
+		cfgD := traceDenseCfg
 		resD := c.runTLC(TLCOpts{Module: "Trace_Dense", Cfg: cfgD, Purpose: "array-layout trace validation " + purpose, Workers: 1,
 			Env: []string{"VERIF_TRACE=" + path}, Timeout: 60 * time.Minute, Constants: "overhead=64 (real constant)"})
 		if resD.Violated != "" {
@@ -433,6 +461,20 @@ CHECK_DEADLOCK FALSE
 			c.driftNote("recorded array layout of a dense store differs from DenseImpl.tla at trace line %d (%s): %.300s", lineNo, keep, nthLine(path, lineNo))
 		} else if resD.Distinct != int64(lines)+1 {
 			infraFail("Trace_Dense consumed %d of %d lines\n%s", resD.Distinct-1, lines, resD.Output)
+		}
+	}
+	if res.Violated == "" && o.Layout {
+		cfgP := tracePagedCfg
+		resP := c.runTLC(TLCOpts{Module: "Trace_Paged", Cfg: cfgP, Purpose: "paginated-layout trace validation " + purpose, Workers: 1,
+			Env: []string{"VERIF_TRACE=" + path}, Timeout: 60 * time.Minute, Constants: "pageLen=32 pageGrow=8 (real constants)"})
+		if resP.Violated != "" {
+			lineNo := resP.LastL - 1
+			keep := filepath.Join(verifRoot, "replays", fmt.Sprintf("%s-trace-%d.ndjson", c.Prop, c.Seed))
+			os.MkdirAll(filepath.Dir(keep), 0o755)
+			copyFile(path, keep)
+			c.driftNote("recorded layout of a paginated store differs from PagedImpl.tla at trace line %d (%s): %.400s", lineNo, keep, nthLine(path, lineNo))
+		} else if resP.Distinct != int64(lines)+1 {
+			infraFail("Trace_Paged consumed %d of %d lines\n%s", resP.Distinct-1, lines, resP.Output)
 		}
 	}
 	c.mu.Lock()
